@@ -1056,3 +1056,56 @@ Definition eval_program_cfg (n : nat) (failat : nat) (forms : list expr) : outco
   else mkOutcome (Sig (SErr ELoop)) [].
 
 Definition eval_program (n : nat) (forms : list expr) : outcome := eval_program_cfg n O forms.
+
+(* ------------------------------------------------------------------ 9. the self tail call route *)
+
+(* generator.go:GenerateCallBySymbol (selfTail) -> GenerateCallArgsForFunction + vm.go:PushLazyArgInstr.
+   A call of the function's own name in tail position is not a CallExprInstr: the decision per
+   argument position is made when the ENCLOSING function is generated, from the function
+   LookupKnownFunction finds under the name (`known`):
+     lazy   -> PushLazyArgInstr{expr}; executing it is NewSourceLazyArg(env, expr): a new cell
+               with the expression and the static chain at the jump.  An argument that is itself
+               a lazy formal, (f #x ..), is the SYMBOL #x wrapped again; the thunk #x holds is not
+               passed through;
+     strict -> the code of the expression inline, as part of the enclosing unit (no compile
+               unit of its own: strict_cc is what generating the enclosing function checked);
+   then RemoveScope.., PrepareCallInstr, Goto 0: the body of the function being run (`self`)
+   is entered again with the prepared values.  The jump is taken only when the number of
+   arguments fits `known` (tail_arity_ok), else an ordinary CallExprInstr is emitted. *)
+Fixpoint tail_prep_args (ev : list nat -> expr -> M value) (env : list nat) (flags : list bool)
+         (es : list expr) : M (list value) :=
+  match es with
+  | [] => ret []
+  | e :: r => v <- (if hd false flags then new_thunk (TSrc e env) None else ev env e) ;;
+              vs <- tail_prep_args ev env (tl flags) r ;; ret (v :: vs)
+  end.
+
+Fixpoint strict_cc (flags : list bool) (es : list expr) : bool :=
+  match es with
+  | [] => true
+  | e :: r => (hd false flags || cc [] e) && strict_cc (tl flags) r
+  end.
+
+Definition tail_arity_ok (f : value) (nargs : nat) : bool :=
+  match f with
+  | VClos _ ps None _ _ => Nat.eqb nargs (length ps)
+  | VClos _ ps (Some _) _ _ => Nat.leb (length ps) nargs
+  | _ => false
+  end.
+
+Definition self_tail_call (ev : list nat -> expr -> M value) (ap : value -> list value -> M value)
+           (env : list nat) (known self : value) (args : list expr) : M value :=
+  vs <- tail_prep_args ev env (lazy_flags known) args ;; ap self vs.
+
+(* k nested forces, (force (force .. v)) *)
+Fixpoint force_n (n k : nat) (v : value) : M value :=
+  match k with
+  | O => ret v
+  | S k' => w <- apply n (VPrim PForce) [v] ;; force_n n k' w
+  end.
+
+
+Definition call_by_symbol (ev : list nat -> expr -> M value) (ap : value -> list value -> M value)
+           (env : list nat) (x : ident) (known self : value) (args : list expr) : M value :=
+  if tail_arity_ok known (length args) then self_tail_call ev ap env known self args
+  else call_expr ev ap env (EVar x) args.
